@@ -189,7 +189,9 @@ word_chars = st.characters(min_codepoint=33, max_codepoint=0x24F,
 _words = st.one_of(st.sampled_from(["solo", "soloend", "a=b", '"q"', '"solo"', '"phrase_start"', '"lyric"', "N", "S",
                                     "2", "0=N", "[x]", "{", "}"]),
                    st.text(alphabet=word_chars, min_size=1, max_size=20),
-                   st.lists(st.sampled_from(G.UNICODE_ODDITIES + ["a", "Q", '"']), min_size=1, max_size=3).map("".join))
+                   st.lists(st.sampled_from(G.UNICODE_ODDITIES + ["a", "Q", '"']), min_size=1, max_size=3).map("".join),
+                   st.lists(st.sampled_from([m for m in G.MARKUP_ODDITIES if " " not in m] + ["a"]), min_size=1,
+                            max_size=3).map("".join))
 
 
 def _positive(max_len):
